@@ -14,6 +14,12 @@ seeds = sorted(d.name for d in (VERIF / "seeded").iterdir() if d.is_dir() and no
 excl = [x for a in sys.argv if a.startswith("--exclude=") for x in a.split("=", 1)[1].split(",")]
 only = [x for a in sys.argv if a.startswith("--only=") for x in a.split("=", 1)[1].split(",")]
 seeds = [s for s in seeds if s.split("-")[0] not in excl and (not only or s.split("-")[0] in only)]
+done = set()
+for a in sys.argv:
+    if a.startswith("--skip-done="):
+        for f in a.split("=", 1)[1].split(","):
+            done |= {l.split()[0] for l in open(f) if "(True, True)" in l}
+seeds = [s for s in seeds if s not in done]
 lanes = {}
 for s in seeds:
     lanes.setdefault(int(s[1:3]) % LANES, []).append(s)
